@@ -188,7 +188,12 @@ def case_history(ctx, case):
             ctx.count('calls_with_numpy_scalars')
         return out
 
+    look_p = rng.choice([1.0, 1.0, 0.5, 0.2])          # positions are looked at after every operation, or only now and then
+
     def verify(who, what):
+        if who is not None and rng.random() >= look_p:
+            ctx.count('operations_after_which_nobody_looked')
+            return
         verify_shadow(what)
         for a in agents:
             got = actual(a)
